@@ -24,5 +24,11 @@ for s in "${seeds[@]}"; do
   echo "$s rc=${rc:-?} $line"
   rm -f $log
 done
-mv $out.tmp $out
+if [ $# -gt 0 ] && [ -f $out ]; then
+  # partial run: replace / append the rows of the given seeds in the existing table
+  for s in "${seeds[@]}"; do grep -v "^| $s |" $out > $out.keep; mv $out.keep $out; done
+  grep -E "^\| C[0-9]+-[a-z] \|" $out.tmp >> $out; rm -f $out.tmp
+else
+  mv $out.tmp $out
+fi
 rm -rf /verif/.cache/kani-target-*
